@@ -4,8 +4,14 @@ type EventFn[T any] func(data T)
 
 type Unsubscribe func()
 
+type subscription[T any] struct {
+	id uint64
+	fn EventFn[T]
+}
+
 type Event[T any] struct {
-	subscribers []EventFn[T]
+	subscribers []subscription[T]
+	nextID      uint64
 }
 
 func New[T any]() *Event[T] {
@@ -14,10 +20,19 @@ func New[T any]() *Event[T] {
 
 // Adds a subscriber to the event.
 func (e *Event[T]) Subscribe(fn EventFn[T]) Unsubscribe {
-	index := len(e.subscribers)
-	e.subscribers = append(e.subscribers, fn)
+	// Subscribers are identified by a unique id and not by their position,
+	// since positions shift whenever an earlier subscriber is removed.
+	id := e.nextID
+	e.nextID++
+	e.subscribers = append(e.subscribers, subscription[T]{id: id, fn: fn})
 	return func() {
-		e.subscribers = append(e.subscribers[:index], e.subscribers[index+1:]...)
+		for i, sub := range e.subscribers {
+			if sub.id == id {
+				e.subscribers = append(e.subscribers[:i:i], e.subscribers[i+1:]...)
+				return
+			}
+		}
+		// Already unsubscribed: nothing to do.
 	}
 }
 
@@ -26,6 +41,6 @@ func (e *Event[T]) Subscribe(fn EventFn[T]) Unsubscribe {
 // so be aware of potential race conditions.
 func (e *Event[T]) Fire(data T) {
 	for _, subscriber := range e.subscribers {
-		go subscriber(data)
+		go subscriber.fn(data)
 	}
 }
